@@ -129,6 +129,11 @@ def ops_for(rng, p, st, tier):
             d = rng.choice([x for x in p.depths if len(steps) <= x <= maxd + 1] or [maxd])
             ops.append(dict(op="iter", d=d, tg=rng.choice([dict(t="path", sep=47), dict(t="idxd"), dict(t="packed")]),
                             root=P.key_repr(rng, steps), _root=steps, max=600))
+        # rooted iteration into a target that runs out of capacity (at, above or below the root depth)
+        for steps, leaf in rng.sample(nodes, min(len(nodes), 3 if quick else 10)):
+            d = rng.choice([x for x in p.depths if len(steps) <= x <= maxd + 1] or [maxd])
+            tg = rng.choice([dict(t="path", sep=47, cap=rng.randint(0, 14)), dict(t="idx", cap=rng.randint(0, maxd)), dict(t="json", cap=rng.randint(0, 14))])
+            ops.append(dict(op="iter", d=d, tg=tg, root=P.key_repr(rng, steps), _root=steps, max=600))
         # re-rooting a used iterator
         for _ in range(2 if quick else 8):
             a, b = rng.choice(nodes), rng.choice(nodes)
